@@ -42,6 +42,8 @@ def gen_case(rng):
     c = dict(route=route, F=F, T=T, df=float(df).hex(), dt=float(dt).hex(), fch1=float(fch1).hex(), ascending=asc)
     if route != "backend" and rng.random() < 0.12:
         c["neg_df"] = True
+    if rng.random() < 0.2:
+        c["flag_kind"] = rng.choice(["numpy", "int"])       # the orientation flag as a numpy bool or 0 / 1: a truth value, not the literal True
     if route == "backend":
         sr = rng.choice([3e9, 2.0 ** 31, 1e9]); nb = rng.choice([64, 1024]); ffl = rng.choice([1024, 1048576, 4096]); intf = rng.randint(1, 51)
         cbw = sr / nb; dfb = cbw / ffl; dtb = intf / dfb
